@@ -26,9 +26,10 @@ Vocab == <<
    Lit(6, 1),                      \* 12 int1     INT "1"
    Kw(23),                         \* 13 nicht    token.NICHT
    Par(FALSE, FALSE, NByte, 7),    \* 14 pBy      <a> Byte
-   Par(FALSE, TRUE,  NZahlenListe, 5)  \* 15 pVL  <a> Vektor = alias of Zahlen Liste (same key as pZL, by alias transparency)
+   Par(FALSE, TRUE,  NZahlenListe, 5), \* 15 pVL  <a> Vektor = alias of Zahlen Liste (same key as pZL, by alias transparency)
+   Kw(69)                          \* 16 Mit      token.MIT spelled "Mit": a keyword is compared by its type alone (same key as mit)
 >>
-VocabNames == <<"foo", "zeige", "mit", "pZ", "pT", "pZr", "pA", "pB", "pAZ", "pZL", "pC", "int1", "nicht", "pBy", "pVL">>
+VocabNames == <<"foo", "zeige", "mit", "pZ", "pT", "pZr", "pA", "pB", "pAZ", "pZL", "pC", "int1", "nicht", "pBy", "pVL", "Mit">>
 VocabSet == {Vocab[i] : i \in 1..Len(Vocab)}
 
 ASSUME StrictWeakOrder(VocabSet)
